@@ -15,7 +15,7 @@ def run(ck: Check, prog: Program) -> None:
     roles = dispatchers(prog)
     ck.explain('Structural fold rules: the constructor folds partial(middleware, handler=chain) over reversed(middlewares) '
                'starting from the own per-element handler, and that one attribute is what both dispatch branches call, once '
-               'per element (C02 rules reused); the error-handler loop iterates chain(generic, per-code) evaluated once, '
+               'per element and whatever it returns is what the batch carries — only UNSET results are dropped (C02 rules reused); the error-handler loop iterates chain(generic, per-code) evaluated once, '
                'threads the error through every call, its result is what the response carries, it is reachable only from '
                'except edges and is not guarded by the notification test; dispatch\'s rejection branches never touch the handlers.')
     ck.assume('middlewares call `handler` at most once (user code)')
@@ -27,7 +27,7 @@ def run(ck: Check, prog: Program) -> None:
         for rule_group, (facts, problems) in (('MW-FOLD', mw_fold_facts(prog, r)), ('EH', eh_fold_facts(prog, interp, r)),
                                               ('REJ', rejection_facts(prog, r)), ('BATCH', batch_facts(prog, r))):
             rules = {'MW-FOLD': ['MW-FOLD'], 'EH': ['EH-FOLD', 'EH-REACH'], 'REJ': ['EH-REACH'],
-                     'BATCH': ['PER-ELEMENT-ONCE', 'SAME-CHAIN']}[rule_group]
+                     'BATCH': ['PER-ELEMENT-ONCE', 'SAME-CHAIN', 'FILTER-UNSET']}[rule_group]
             for rule in rules:
                 bad = [p for p in problems if p[0] == rule]
                 ck.ob(rule, f'{half}: {rule} ({rule_group})', not bad, sample={'facts': facts})
